@@ -478,6 +478,9 @@ func (fr *frame) execBinOp(st *state, v *ssa.BinOp) {
 			t = fc.strEq(x, y, al, bl)
 		case "Slice":
 			t = fmt.Sprintf("(= (sref %s) (sref %s))", x, y)
+		case "Real":
+			// == on floats is false when an operand is NaN (so != is true)
+			t = and(notNaN(u, x), notNaN(u, y), eq(x, y))
 		default:
 			t = eq(x, y)
 		}
@@ -488,6 +491,8 @@ func (fr *frame) execBinOp(st *state, v *ssa.BinOp) {
 		op := map[token.Token]string{token.LSS: "<", token.LEQ: "<=", token.GTR: ">", token.GEQ: ">="}[v.Op]
 		if xs == "Str" {
 			t = sc.declare("strcmp", "Bool")
+		} else if xs == "Real" {
+			t = fcmp(u, op, x, y)
 		} else {
 			t = app(op, x, y)
 		}
@@ -669,7 +674,7 @@ func (fr *frame) execConvert(st *state, v *ssa.Convert) {
 		truncOf := func(r string) string {
 			return fmt.Sprintf("(ite (>= %s 0.0) (and (<= (to_real %s) %s) (< %s (+ (to_real %s) 1.0))) (and (>= (to_real %s) %s) (> %s (- (to_real %s) 1.0))))", x, r, x, x, r, r, x, x, r)
 		}
-		sc.assume(fmt.Sprintf("(=> (and (> %s (- 9000000000000000000.0)) (< %s 9000000000000000000.0)) %s)", x, x, truncOf(r)))
+		sc.assume(fmt.Sprintf("(=> (and %s (> %s (- 9000000000000000000.0)) (< %s 9000000000000000000.0)) %s)", notNaN(u, x), x, x, truncOf(r)))
 		if bt, ok := v.Type().Underlying().(*types.Basic); ok && bt.Info()&types.IsUnsigned != 0 {
 			u.global("(declare-fun f2u (Real) Int)")
 			r2 := sc.define("touint", "Int", app("f2u", x))
@@ -1058,4 +1063,28 @@ func (fr *frame) globalDerivedWrite(st *state, target ssa.Value, pos token.Pos, 
 		return
 	}
 	fr.oblige(st, "globalframe", g.Pkg.Pkg.Name()+"."+g.Name()+"("+what+")", pos, "false", what+" on an object held by the package-level variable "+g.Name()+" outside the functions allowed to write it (shared by every call: C18)")
+}
+
+
+// NaN: floats are modelled as reals (A2) plus one uninterpreted flag fnan(x) saying that the value is a NaN.
+// Ordered comparisons are false when an operand is NaN, exactly as in Go; int(x) of a NaN is unspecified. Terms
+// that are syntactically numerals or conversions from integers are never NaN.
+func nanFree(t string) bool {
+	if t == "" {
+		return false
+	}
+	c := t[0]
+	return (c >= '0' && c <= '9') || strings.HasPrefix(t, "(- ") && len(t) > 3 && t[3] >= '0' && t[3] <= '9' || strings.HasPrefix(t, "(to_real ") || strings.HasPrefix(t, "(/ ") && len(t) > 3 && t[3] >= '0' && t[3] <= '9'
+}
+
+func notNaN(u *Universe, t string) string {
+	if nanFree(t) {
+		return "true"
+	}
+	u.global("(declare-fun fnan (Real) Bool)")
+	return "(not (fnan " + t + "))"
+}
+
+func fcmp(u *Universe, op, x, y string) string {
+	return and(notNaN(u, x), notNaN(u, y), app(op, x, y))
 }
